@@ -309,6 +309,19 @@ func (c *C14) wrapPairs() [][3]interface{} {
 			}
 		}
 	}
+	// a length frame written as decimal text without a terminator ("%d%s") is not prefix-free: the digits of a length and
+	// leading digits of a content can trade places. TxHash, FeePaid, FeePayer of a BatchExecutedEvent are adjacent text fields:
+	//   "66"+"0xabc19102"+Y | "1"+"5" | "42"+payer   ==   "6"+"60xabc" | "1"+"9" | "102"+(Y+"1542"+payer)
+	{
+		y := strings.Repeat("c0ffee11", 7) // 56 characters
+		e1 := &mhubtypes.BatchExecutedEvent{ExternalCoinId: EthHub, EventNonce: 7, ExternalHeight: 100, BatchNonce: 1, TxHash: "0xabc19102" + y, FeePaid: sdk.NewInt(5), FeePayer: r1}
+		e2 := &mhubtypes.BatchExecutedEvent{ExternalCoinId: EthHub, EventNonce: 7, ExternalHeight: 100, BatchNonce: 1, TxHash: "60xabc", FeePaid: sdk.NewInt(9), FeePayer: y + "15" + "42" + r1}
+		out = append(out, [3]interface{}{"BatchExecutedEvent", c14Variant{"66-character txhash", "ethereum", e1}, c14Variant{"txhash+feepaid+feepayer(decimal text frame re-cut)", "ethereum", e2}})
+		// the same with the frame AFTER the content ("%s%d") or a separator that the content may contain ("%s|")
+		e3 := &mhubtypes.BatchExecutedEvent{ExternalCoinId: EthHub, EventNonce: 7, ExternalHeight: 100, BatchNonce: 1, TxHash: "0xaa|5|0xbb", FeePaid: sdk.NewInt(7), FeePayer: r1}
+		e4 := &mhubtypes.BatchExecutedEvent{ExternalCoinId: EthHub, EventNonce: 7, ExternalHeight: 100, BatchNonce: 1, TxHash: "0xaa", FeePaid: sdk.NewInt(5), FeePayer: "0xbb|7|" + r1}
+		out = append(out, [3]interface{}{"BatchExecutedEvent", c14Variant{"txhash containing separators", "ethereum", e3}, c14Variant{"txhash+feepaid+feepayer(separator re-cut)", "ethereum", e4}})
+	}
 	return out
 }
 
@@ -495,7 +508,7 @@ func init() {
 			}
 			out.Evidence = map[string]interface{}{"level": "exploration", "coverage": map[string]interface{}{
 				"evaluations": r.pairs, "distinct_nontrivial": r.distinctSigs,
-				"rule":        "all unordered pairs of per-field variants of each of the 5 event types (base + 5..25 alternatives incl. other spellings of one address (prefix 0x/0X/none, letter case) wherever Validate admits them, amounts differing only above bit 64/128/192, Minter ids 1/12 with amounts whose big-endian bytes start with 0x32) plus one constructed cross-type pair and, for the three event types with two free-form fields, constructed frame-overflow pairs for 1- and 2-byte length frames (a field of length n and one of length n+2^(8k) frame identically); a pair is distinct by (type, set of differing fields); every pair is hashed with the real Hash(); pairs with equal hash are applied with the real ExternalEventProcessor.Handle to a pre-state with pending batches and compared by store digest",
+				"rule":        "all unordered pairs of per-field variants of each of the 5 event types (base + 5..25 alternatives incl. other spellings of one address (prefix 0x/0X/none, letter case) wherever Validate admits them, amounts differing only above bit 64/128/192, Minter ids 1/12 with amounts whose big-endian bytes start with 0x32) plus one constructed cross-type pair and, for the three event types with two free-form fields, constructed frame-overflow pairs for 1- and 2-byte length frames (a field of length n and one of length n+2^(8k) frame identically), for unterminated decimal-text length frames and for in-band separators; a pair is distinct by (type, set of differing fields); every pair is hashed with the real Hash(); pairs with equal hash are applied with the real ExternalEventProcessor.Handle to a pre-state with pending batches and compared by store digest",
 				"samples":     r.samples, "equal_hash_pairs": r.equalHash, "exhaustive": true, "variants_not_admitted_by_validate": c.inadmissible,
 			}, "assumptions": []string{"effect = store digest + error after Handle on one representative pre-state (prices present, two pending ethereum batches, funded users); module hooks are nil as in app.go"}}
 			out.Summary = fmt.Sprintf("pairs=%d equal_hash=%d violations=%d known=%d (%s)", r.pairs, r.equalHash, len(out.Violations), len(out.Known), time.Since(start).Round(time.Millisecond))
